@@ -165,6 +165,46 @@ structure Lists (s : State) (G : List RRegion) (cs : List Int) (k : Nat) (rr : R
   disj : ∀ (i i' : Nat) l l', rr.order[i]? = some l → rr.order[i']? = some l' → ∀ c, c ∈ l → c ∈ l' → i = i'
   yinv : ∀ (i : Nat) l g, rr.order[i]? = some l → G[i]? = some g → ∀ c ∈ l, rr.store.2 c = s.rowY g.row
   frame : ∀ d, d ∉ cs → rr.store.1 d = s.x d ∧ rr.store.2 d = s.y d
+  fits : ∀ (i : Nat) l g, rr.order[i]? = some l → G[i]? = some g → l ≠ [] → allocatedWidth s l ≤ g.width
+  allowed : ∀ (i : Nat) l g, rr.order[i]? = some l → G[i]? = some g → ∀ c ∈ l, s.isRowAllowed c g.row = true
+
+theorem allocatedWidth_foldl (s : State) : ∀ (l : List Int) (a : Int),
+    l.foldl (fun acc c => acc + s.width c) a = a + allocatedWidth s l
+  | [], a => by simp [allocatedWidth]
+  | c :: cs, a => by
+    unfold allocatedWidth
+    simp only [List.foldl_cons]
+    rw [allocatedWidth_foldl s cs (a + s.width c), allocatedWidth_foldl s cs (0 + s.width c)]
+    unfold allocatedWidth
+    omega
+
+theorem allocatedWidth_cons (s : State) (c : Int) (l : List Int) : allocatedWidth s (c :: l) = s.width c + allocatedWidth s l := by
+  unfold allocatedWidth
+  simp only [List.foldl_cons]
+  rw [allocatedWidth_foldl]
+  unfold allocatedWidth
+  omega
+
+theorem allocatedWidth_perm (s : State) {l l' : List Int} (h : l.Perm l') : allocatedWidth s l = allocatedWidth s l' := by
+  induction h with
+  | nil => rfl
+  | cons x _ ih => rw [allocatedWidth_cons, allocatedWidth_cons, ih]
+  | swap x y l => simp only [allocatedWidth_cons]; omega
+  | trans _ _ ih1 ih2 => exact ih1.trans ih2
+
+/-- what makes a leaf's write-back go through: one order and one position list per region, positions packed
+from `minPos`, the cells of a region fit in its width and may sit on its row, every registered cell is in
+exactly one region -/
+structure LeafWF (s : State) (G : List RRegion) (cs : List Int) (O P : List (List Int)) : Prop where
+  olen : O.length = G.length
+  plen : P.length = G.length
+  packed : ∀ (i : Nat) l g, O[i]? = some l → G[i]? = some g → P[i]? = some (packPos s g.minPos l)
+  fits : ∀ (i : Nat) l g, O[i]? = some l → G[i]? = some g → l ≠ [] → allocatedWidth s l ≤ g.width
+  allowed : ∀ (i : Nat) l g, O[i]? = some l → G[i]? = some g → ∀ c ∈ l, s.isRowAllowed c g.row = true
+  nodup : ∀ (i : Nat) l, O[i]? = some l → l.Nodup
+  sub : ∀ (i : Nat) l, O[i]? = some l → ∀ c ∈ l, c ∈ cs
+  cover : ∀ d ∈ cs, ∃ (i : Nat) (l : List Int), O[i]? = some l ∧ d ∈ l
+  disj : ∀ (i i' : Nat) l l', O[i]? = some l → O[i']? = some l' → ∀ c, c ∈ l → c ∈ l' → i = i'
 
 /-- regions `j..` have been set up: positions packed, x vector told -/
 def XInv (s : State) (G : List RRegion) (j : Nat) (rr : RowReord PS) : Prop :=
@@ -219,5 +259,10 @@ theorem leaf_store_eq (V : Value) (s : State) (G : List RRegion) (cs : List Int)
     · intro d' hd'
       exact (hl.frame d' (hout d' hd')).2
   rw [ex, ey]
+
+theorem leaf_wf (s : State) (G : List RRegion) (cs : List Int) (rr : RowReord PS)
+    (hs : Shape G cs rr) (hl : Lists s G cs 0 rr) (hx : XInv s G 0 rr) : LeafWF s G cs rr.order rr.positions :=
+  ⟨hs.olen, hs.plen, fun i l g h1 h2 => (hx i l g (Nat.zero_le _) h1 h2).1, hl.fits, hl.allowed, hl.nodup,
+   fun i l h c hc => by simpa using hl.sub i l h c hc, fun d hd => hl.cover d (by simpa using hd), hl.disj⟩
 
 end ColoVerif.DetPlace
